@@ -115,12 +115,13 @@ Proof.
   rewrite H in Hp. rewrite H0 in Hq. simpl in *. congruence.
 Qed.
 
-Lemma stop_scan_true : forall P (t : cdz) segs, Scans.stop_scan P t segs = Some true -> 2 <= length (idx t).
+Lemma stop_scan_true : forall K P (t : cdz) segs, Scans.stop_scan K P t segs = Some true -> 2 <= length (idx t).
 Proof.
-  intros P t. induction segs as [|[[s e] state] rest IH]; intro H; simpl in H; [discriminate|].
-  destruct (lookup t s) as [a|] eqn:La; [|discriminate]. destruct (lookup t 0) as [b|] eqn:Lb; [|discriminate].
+  intros K P t. induction segs as [|[[s e] state] rest IH]; intro H; simpl in H; [discriminate|].
+  destruct (lookup t s) as [a|] eqn:La; [|discriminate].
+  destruct (lookup t (Scans.k_stop_dump K)) as [b|] eqn:Lb; [|discriminate].
   destruct ((state =? Scans.p_stop P)%Z && (a =? b)); [apply IH; exact H|].
-  injection H as H. apply negb_true_iff in H. apply Nat.eqb_neq in H. exact (lookup_two t s 0 a b La Lb H).
+  injection H as H. apply negb_true_iff in H. apply Nat.eqb_neq in H. exact (lookup_two t s _ a b La Lb H).
 Qed.
 
 Lemma Zeqb_ok : forall a b : Z, Z.eqb a b = true <-> a = b.
@@ -144,18 +145,26 @@ Proof.
 Qed.
 
 (* ---------------------------------------------------------------- the stages of the pipeline *)
-Lemma slew_fix_good : forall N P (c : cdz), good N c -> good N (Scans.slew_fix P c).
+(* what the proofs need of the numbers read from the source: the first event is only dropped from a series with at
+   least two events, the default label is added on dump 0 exactly when the labels do not start on dump 0 *)
+Definition segk_ok (K : Scans.segk) : Prop :=
+  1 <= Scans.k_slew_len K /\ 1 <= Scans.k_noth_len K /\ Scans.k_lab_first K = 0 /\ Scans.k_lab_add K = 0.
+Lemma segk_of_ok : forall f, segk_ok (Scans.segk_of f).
+Proof. intros []; vm_compute; repeat split; lia. Qed.
+
+Lemma slew_fix_good : forall N K P (c : cdz), segk_ok K -> good N c -> good N (Scans.slew_fix K P c).
 Proof.
-  intros N P c G. unfold Scans.slew_fix.
-  destruct ((1 <? length (idx c)) && (nth 1 (ev c) 0 =? 1) && Scans.opt_is (Scans.value_at c 1) (Scans.p_slew P)) eqn:E; [|exact G].
+  intros N K P c (HK & _) G. unfold Scans.slew_fix.
+  destruct ((Scans.k_slew_len K <? length (idx c)) && (nth (Scans.k_slew_evi K) (ev c) 0 =? Scans.k_slew_ev K)
+            && Scans.opt_is (Scans.value_at c (Scans.k_slew_dump K)) (Scans.p_slew P)) eqn:E; [|exact G].
   apply andb_true_iff in E. destruct E as [E _]. apply andb_true_iff in E. destruct E as [E _].
   apply Nat.ltb_lt in E. apply (drop_first_good N c G). lia.
 Qed.
 
-Lemma label_clean_ok : forall N P (c : cdz), good N c ->
-  WF (Scans.label_clean P c) /\ ndumps (Scans.label_clean P c) = N.
+Lemma label_clean_ok : forall N K P (c : cdz), good N c ->
+  WF (Scans.label_clean K P c) /\ ndumps (Scans.label_clean K P c) = N.
 Proof.
-  intros N P c (W & _ & E). unfold Scans.label_clean. destruct (1 <? length (uv c)); [|split; assumption].
+  intros N K P c (W & _ & E). unfold Scans.label_clean. destruct (Scans.k_lab_uv K <? length (uv c)); [|split; assumption].
   destruct (remove_WF Z.eqb c (Scans.p_empty P) W) as [W' E']. split; [exact W' | congruence].
 Qed.
 
@@ -174,12 +183,12 @@ Qed.
 Lemma target_post_good : forall N f P (sc t t3 : cdz), good N sc -> good N t ->
   Scans.target_post f P sc t = Some t3 -> good N t3.
 Proof.
-  intros N f P sc t t3 Gs (W & S0 & E) H. destruct f; simpl in H; try (injection H as <-; split; [|split]; assumption).
+  intros N f P sc t t3 Gs (W & S0 & E) H. destruct f; unfold Scans.target_post in H; try (injection H as <-; split; [|split]; assumption).
   destruct (remove_repeats t) as [t1|] eqn:R; [|discriminate].
   destruct (remove_repeats_WF t t1 W R) as (W1 & E1 & H1 & _).
   assert (G1 : good N t1) by (split; [exact W1|split; [unfold start0 in *; congruence | congruence]]).
-  destruct (Scans.stop_scan P t1 (segments zd sc)) as [[|]|] eqn:SS; [| injection H as <-; exact G1 | discriminate].
-  destruct (drop_first_good N t1 G1 (stop_scan_true _ _ _ SS)) as [G2 _].
+  destruct (Scans.stop_scan (Scans.segk_of Scans.V4) P t1 (segments zd sc)) as [[|]|] eqn:SS; [| injection H as <-; exact G1 | discriminate].
+  destruct (drop_first_good N t1 G1 (stop_scan_true _ _ _ _ SS)) as [G2 _].
   exact (align_good N _ _ t3 G2 G2 H).
 Qed.
 
@@ -213,24 +222,28 @@ Theorem segment_good : forall f P (act label target : cdz) N g, 0 < N ->
   good N act -> good N label -> good N target ->
   Scans.segment f P act label target = Some g -> seg_good N g.
 Proof.
-  intros f P act label target N g HN Ga Gl Gt H. unfold Scans.segment in H.
-  pose proof (slew_fix_good N P act Ga) as G0. destruct (label_clean_ok N P label Gl) as [W1 E1].
-  set (scan0 := Scans.slew_fix P act) in *. set (label1 := Scans.label_clean P label) in *.
+  intros f P act label target N g HN Ga Gl Gt H. unfold Scans.segment in H. cbv zeta in H.
+  pose proof (segk_of_ok f) as KO. set (K := Scans.segk_of f) in *.
+  pose proof (slew_fix_good N K P act KO Ga) as G0. destruct (label_clean_ok N K P label Gl) as [W1 E1].
+  set (scan0 := Scans.slew_fix K P act) in *. set (label1 := Scans.label_clean K P label) in *.
   destruct G0 as (W0 & S0 & E0).
-  destruct (add_unmatched_spec Z.eqb zd scan0 (ev label1) 1 W0) as (Ws & Es & Hs & _).
-  set (scan := add_unmatched Z.eqb scan0 (ev label1) 1) in *.
+  destruct (add_unmatched_spec Z.eqb zd scan0 (ev label1) (Scans.k_dist K) W0) as (Ws & Es & Hs & _).
+  set (scan := add_unmatched Z.eqb scan0 (ev label1) (Scans.k_dist K)) in *.
+  destruct KO as (_ & KN & KF & KA). rewrite KF, KA in H.
   assert (Gs : good N scan) by (split; [exact Ws|split; [unfold start0 in *; congruence | congruence]]).
   destruct (align zd label1 (ev scan)) as [label2|] eqn:A2; [|discriminate].
-  destruct (if 0 <? hd 0 (ev label2) then add Z.eqb label2 0 (Some (Scans.p_empty P)) else Some label2) as [label3|] eqn:A3;
+  destruct (if 0 <? hd 0 (ev label2) then add Z.eqb label2 0 (Some (Scans.p_addlabel P)) else Some label2) as [label3|] eqn:A3;
     [|discriminate].
   pose proof (label_stage N scan label1 label2 label3 _ HN Gs W1 E1 A2 A3) as G3.
   set (target1 := match f with
-                  | Scans.V3 => if (1 <? length (idx target)) && Scans.opt_is (Scans.value_at target 0) (Scans.p_nothing P)
+                  | Scans.V3 => if (Scans.k_noth_len K <? length (idx target))
+                                   && Scans.opt_is (Scans.value_at target (Scans.k_noth_dump K)) (Scans.p_nothing P)
                                 then Scans.drop_first target else target
                   | _ => target end) in *.
   assert (Gt1 : good N target1).
   { unfold target1. destruct f; try exact Gt.
-    destruct ((1 <? length (idx target)) && Scans.opt_is (Scans.value_at target 0) (Scans.p_nothing P)) eqn:Ec; [|exact Gt].
+    destruct ((Scans.k_noth_len K <? length (idx target))
+              && Scans.opt_is (Scans.value_at target (Scans.k_noth_dump K)) (Scans.p_nothing P)) eqn:Ec; [|exact Gt].
     apply andb_true_iff in Ec. destruct Ec as [Ec _]. apply Nat.ltb_lt in Ec. apply (drop_first_good N target Gt). lia. }
   destruct (align zd target1 (ev scan)) as [target2|] eqn:A4; [|discriminate].
   pose proof (align_good N target1 scan target2 Gt1 Gs A4) as Gt2.
